@@ -83,12 +83,16 @@ def models(draw, with_groups=True, with_systems=True, with_offset=True, max_unit
         if cands:
             u = draw(st.sampled_from(cands))
             systems.append({"name": SYSTEMS[0], "using": [g["name"] for g in groups[:1]], "rules": [[u["name"], None if draw(st.booleans()) else list(u["refs"])[0]]]})
+    defaults = None
+    if groups and systems and draw(st.integers(0, 2)) == 0:
+        # units written outside any @group block then belong to the default group (here the group at the bottom of the 'using' chains)
+        defaults = {"group": groups[0]["name"], "system": systems[0]["name"]}
     dims = []
     if draw(st.booleans()):
         dims.append({"name": "[xspeed]", "expr": {base[0][1]: 1, base[1][1]: -1}})
     layout = {"perm": draw(st.permutations(list(range(len(units) + len(prefixes))))), "style": draw(st.integers(0, 5)), "comments": draw(st.booleans()),
               "spacing": draw(st.integers(0, 2))}
-    return {"base": [list(b) for b in base], "units": units, "prefixes": prefixes, "offsets": offsets, "groups": groups, "systems": systems, "dims": dims, "layout": layout}
+    return {"base": [list(b) for b in base], "units": units, "prefixes": prefixes, "offsets": offsets, "groups": groups, "systems": systems, "dims": dims, "layout": layout, "defaults": defaults}
 
 
 # ------------------------------------------------------------------------------------- oracle side
@@ -136,6 +140,9 @@ def spellings(model):
 def group_members(model, g, _stack=()):
     gd = next(x for x in model["groups"] if x["name"] == g)
     out = set(gd["members"])
+    if (model.get("defaults") or {}).get("group") == g:
+        grouped = {m for x in model["groups"] for m in x["members"]}
+        out |= {b[0] for b in model["base"]} | {u["name"] for u in model["units"] if u["name"] not in grouped} | {o["name"] for o in model["offsets"]}
     for h in gd["using"]:
         out |= group_members(model, h, _stack + (g,))
     return out
@@ -176,6 +183,8 @@ def render(model, *, permute=True, split_import=False):
     lines = []
     if lay["comments"]:
         lines.append("# generated registry")
+    if model.get("defaults"):
+        lines += ["@defaults", f"    group = {model['defaults']['group']}", f"    system = {model['defaults']['system']}", "@end"]
     for b in model["base"]:
         lines.append(f"{b[0]} = {b[1]}")
     for d in model["dims"]:
